@@ -139,7 +139,7 @@ class DrapeModel(GridObject):
 
     @property
     def n_cells(self):
-        if self._layers is not None:
+        if self.layers is not None and self._layers is not None:
             return self._layers.shape[0]
         return None
 
